@@ -136,6 +136,12 @@ fn gen_observer(rng: &mut Rng, text: &str, ascii: bool, prev: &[ReplCall]) -> Op
       then: Box::new(if rng.chance(500) { OpKind::Source } else { OpKind::Hash }),
     };
   }
+  if rng.chance(70) {
+    // Debug rendering, also into a formatter sink that fails part-way
+    return OpKind::DebugFmt {
+      limit: if rng.chance(700) { Some(rng.below(500) as u32) } else { None },
+    };
+  }
   let base = |rng: &mut Rng| match rng.below(12) {
     0..=2 => OpKind::Source,
     3 => OpKind::Rope,
@@ -730,7 +736,7 @@ impl Property for C05 {
     (serde_json::to_value(&cur).unwrap(), from)
   }
   fn rule(&self) -> String {
-    "case = (inner tree, 1-4 phases, knobs) from splitmix(VERIF_SEED, run index). A phase = optionally continuing on a clone of the value, then 0-4 mutating calls by the owner (insert / replace / *_with_enforce; positions from the char boundaries of the inner text plus positions beyond the end; deliberately colliding (start,end) keys, nesting, overlap, all enforce values; in 12% of the cases 21-48 calls on 1-3 colliding keys; in 4% of the cases one programmatic burst of 31 .. 65 540 calls, the count next to a power of two with extra weight on 2^8 and 2^16, in the first phase or after an observation phase; a quarter of the bursts use keys far beyond the end of the text) followed by an observation phase in which 1-3 simulated threads share &ReplaceSource and call source, rope, buffer, size, to_writer(fault plan), map, hash, stream (also cancelled), clone-then-observe under a seeded schedule. Every text-bearing answer must equal the 12-line splice model applied to all calls so far. distinct_nontrivial = distinct histories with >= 2 replacements and a mutation after an observation phase.".into()
+    "case = (inner tree, 1-4 phases, knobs) from splitmix(VERIF_SEED, run index). A phase = optionally continuing on a clone of the value, then 0-4 mutating calls by the owner (insert / replace / *_with_enforce; positions from the char boundaries of the inner text plus positions beyond the end; deliberately colliding (start,end) keys, nesting, overlap, all enforce values; in 12% of the cases 21-48 calls on 1-3 colliding keys; in 4% of the cases one programmatic burst of 31 .. 65 540 calls, the count next to a power of two with extra weight on 2^8 and 2^16, in the first phase or after an observation phase; a quarter of the bursts use keys far beyond the end of the text) followed by an observation phase in which 1-3 simulated threads share &ReplaceSource and call source, rope, buffer, size, to_writer(fault plan), map, hash, stream (also cancelled), clone-then-observe, Debug rendering (also into a formatter sink that fails part-way) under a seeded schedule. Every text-bearing answer must equal the 12-line splice model applied to all calls so far. distinct_nontrivial = distinct histories with >= 2 replacements and a mutation after an observation phase.".into()
   }
   fn assumptions(&self) -> Vec<String> {
     vec![
